@@ -62,6 +62,7 @@ class SetExpr:
     wrappers: list[Frame]
     rec: bool
     bindings: dict
+    inline: bool = False   # written on one line: `rec { x = a; a = 1; }` (only flat sets)
 
 
 @dataclass
@@ -313,6 +314,8 @@ def _render_setexpr(s: SetExpr, indent: int) -> str:
         else:
             env = fr.env_name if fr.env_name is not None else _inline_set(fr.bindings)
             out += f"with {env};\n{pad}"
+    if s.inline and not s.wrappers and s.bindings and all(isinstance(v, (int, Ref)) for v in s.bindings.values()):
+        return ("rec " if s.rec else "") + _inline_set(s.bindings)
     body = _render_bindings(s.bindings, indent + 2)
     out += ("rec " if s.rec else "") + "{\n" + body + f"\n{pad}}}"
     return out
@@ -408,7 +411,7 @@ def gen_setexpr(rng: random.Random, depth: int, set_names: list[str], counter: l
             bindings[f"n{counter[0]}"] = gen_setexpr(rng, depth + 1, local_sets, counter)
     items = list(bindings.items())
     rng.shuffle(items)
-    return SetExpr(wrappers, rec, dict(items))
+    return SetExpr(wrappers, rec, dict(items), inline=rng.random() < 0.3)
 
 
 def count_bindings(s: SetExpr) -> int:
